@@ -885,8 +885,70 @@ class Analysis:
                 return ("undef", n)
             return ("init", var)
         if v[0] == "phi":
+            sel = self._phi_select(v[1], var)
+            if sel is not None:
+                return sel
             return ("phi", v[1], var)
         return ("opq", var, v[1], v[2])
+
+    def _phi_select(self, b, var):
+        """value of a two-way join that spells a rounded-up quotient by hand:
+        `q = x >> k; if x & (2^k - 1) != 0 { q + 1 } else { q }`  is  x.div_ceil(2^k)"""
+        cache = self.__dict__.setdefault("_phi_sel_cache", {})
+        key = (b, var)
+        if key in cache:
+            return cache[key]
+        cache[key] = None
+        if not var.startswith("v"):
+            return None
+        preds = [p for p, _ in self.cfg.pred[b]]
+        if len(preds) != 2 or preds[0] == preds[1] or any(p not in self.ver_out for p in preds) \
+                or any(self.cfg.dominates(b, p) for p in preds):
+            return None
+        ins = [self.var_term(self.ver_out[p], var) for p in preds]
+        one = ("const", "usize", 1)
+
+        def origin(p, via):
+            # (switch block, its successor on the way to b) following a chain of single-entry single-exit blocks
+            for _ in range(4):
+                t = self.f["blocks"][p]["term"]
+                if t["k"] == "switch":
+                    return p, via
+                ps = [q for q, _ in self.cfg.pred[p]]
+                if t["k"] not in ("goto", "assert") or len(ps) != 1:
+                    return None
+                p, via = ps[0], p
+            return None
+        for q, qp, pq, pp in ((ins[0], ins[1], preds[0], preds[1]), (ins[1], ins[0], preds[1], preds[0])):
+            if not (q[0] == "bin" and q[1] == "Shr" and q[3][0] == "const" and isinstance(q[3][2], int)
+                    and qp in (("bin", "Add", q, one), ("bin", "Add", one, q))):
+                continue
+            x, k = q[2], q[3][2]
+            oz, on = origin(pq, b), origin(pp, b)
+            if oz is None or on is None or oz[0] != on[0] or oz[1] == on[1]:
+                continue
+            sb = oz[0]
+            sev = [e for e in self.ev_by_block.get(sb, ()) if e["k"] == "switch"]
+            t = self.f["blocks"][sb]["term"]
+            if not sev or len(t["targets"]) != 1 or int(t["targets"][0][0]) != 0:
+                continue
+            D = sev[0]["discr"]
+            false_tg, true_tg = t["targets"][0][1], t["otherwise"]
+            zero = ("const", "usize", 0)
+            rem = None
+            if D[0] == "bin" and D[1] in ("Ne", "Eq") and zero in (D[2], D[3]):
+                rem = D[3] if D[2] == zero else D[2]
+                nz_tg, z_tg = (true_tg, false_tg) if D[1] == "Ne" else (false_tg, true_tg)
+            elif D[0] == "bin" and D[1] == "Lt" and D[2] == zero:
+                rem = D[3]
+                nz_tg, z_tg = true_tg, false_tg
+            if rem is None or not (rem[0] == "bin" and rem[1] == "BitAnd" and ("const", "usize", (1 << k) - 1) in (rem[2], rem[3])
+                                   and x in (rem[2], rem[3])):
+                continue
+            if on[1] == nz_tg and oz[1] == z_tg:
+                cache[key] = ("call", "usize::div_ceil", (), (x, ("const", "usize", 1 << k)))
+                return cache[key]
+        return None
 
     def phi_variant_input(self, val, variant):
         """a phi of enum aggregates read as `variant`: the only input built as that variant (the value
